@@ -877,11 +877,18 @@ static void ind_cells(struct prods *ps, const char *text, struct iwpool *pool) {
       if (rc || !src || !cl) {
         printf("ERR-%s", rcname(rc ? rc : IW_ERROR_FAIL));
       } else {
-        if (cl->bn.writable && cl->bn.pbuf && cl->bn.pbuf == src->bn.pbuf) {
-          printf("ALIAS:");
-          cl->bn.writable = 0;
-        }
+        // jbl_size() of the fresh clone, BEFORE anything has read it, against the size jbl_as_buf() reports; the same for the
+        // source right after it was changed (the header, which holds the size, is written lazily)
+        size_t z1 = jbl_size(cl), z2 = 0, z3, z4 = 0;
+        void *zb;
+        int alias = cl->bn.writable && cl->bn.pbuf && cl->bn.pbuf == src->bn.pbuf;
+        if (alias) cl->bn.writable = 0;
+        jbl_as_buf(cl, &zb, &z2);
         iwrc r1 = ind_change(src, "\001s", 77);
+        z3 = jbl_size(src);
+        jbl_as_buf(src, &zb, &z4);
+        printf("Z%zu.%zu.%zu.%zu:", z1, z2, z3, z4);
+        if (alias) printf("ALIAS:");
         char *d1 = 0; size_t l1 = 0;
         FILE *sv = stdout, *m1 = open_memstream(&d1, &l1);
         stdout = m1; dump_jbl(cl, pool); fflush(m1); stdout = sv; fclose(m1);
@@ -1034,7 +1041,20 @@ int main(void) {
           struct jbl *res = 0;
           rc = jbl_at(jbl, (char*) path, &res);
           printf(" b=%s:", rcname(rc));
-          if (!rc) { dump_jbl(res, pool); safe_destroy(jbl, &res, "balias"); }
+          if (!rc) {
+            dump_jbl(res, pool);
+            // Only with VERIF_C14_JUDGE_SCLONE=1: on a library without fixes/jbinn-clone-scalar-leak.diff jbl_clone() reads the
+            // BYTES of a scalar (string contents, the value union) as a binn header - a string starting with 0xE0..0xE2 makes
+            // it copy `size` bytes from there (crash / over-read), so the call is not safe to make by default
+            if (jbl_type(res) < JBV_OBJECT && getenv("VERIF_C14_JUDGE_SCLONE")) {
+              // jbl_clone of a value that is not a container: when it fails there must be nothing left to destroy
+              struct jbl *sc = (struct jbl*) 1;
+              iwrc rc2 = jbl_clone(res, &sc);
+              printf(" sclone=%s:%s", rcname(rc2), sc == 0 ? "null" : sc == (struct jbl*) 1 ? "untouched" : "set");
+              if (sc && sc != (struct jbl*) 1) { if (rc2) free(sc); else jbl_destroy(&sc); }
+            }
+            safe_destroy(jbl, &res, "balias");
+          }
           if (!prc) {
             res = 0;
             rc = jbl_at2(jbl, jp, &res);
